@@ -28,6 +28,7 @@ ASSUMPTIONS = ["E2/E5: AEON parsers for bnet/aeon/sbml and infer_valid_graph"]
 CASE_TIMEOUT = {"quick": 60, "thorough": 180}
 
 
+RARE_CFG = 0.15      # rarely used option values, applied to every presentation of the case
 NAMES = 0.0          # this campaign relies on the names it generates
 FREE_INPUTS = 0.0
 
@@ -106,6 +107,28 @@ def tt_expr(bn, v, names, rng_bits):
 
 
 def run_case(case):
+    """every presentation is built under the same configuration: the case's rarely used option values (if any) are made
+    the default configuration while the case runs"""
+    from biobalm import SuccessionDiagram
+
+    cfg = {k: v for k, v in case.get("cfg", {}).items() if k != "debug"}
+    if not cfg:
+        return run_case_inner(case)
+    orig = SuccessionDiagram.default_config
+
+    def patched():
+        c = orig()
+        c.update(cfg)
+        return c
+
+    SuccessionDiagram.default_config = staticmethod(patched)
+    try:
+        return run_case_inner(case)
+    finally:
+        SuccessionDiagram.default_config = staticmethod(orig)
+
+
+def run_case_inner(case):
     import random
     from biobalm import SuccessionDiagram
     from biodivine_aeon import BooleanNetwork
